@@ -8,5 +8,9 @@ case "$P" in
   *) git apply "$P" || exit 2 ;;
 esac
 trap 'git -C /repo checkout -- . ' EXIT INT TERM
+# the evidence file of the property describes the unchanged tree: keep it aside while the check runs on the changed tree
+EV="/verif/evidence/$1.json"
+[ -f "$EV" ] && cp "$EV" "$EV.keep"
 cd /verif && ./check "$@"
 echo "exit=$?"
+[ -f "$EV.keep" ] && mv "$EV.keep" "$EV"
